@@ -550,6 +550,30 @@ impl InterfaceInner {
             }
             #[cfg(feature = "socket-raw")]
             IpPayload::Raw(_raw) => todo!(),
+            // MLD reports: the hop-by-hop header and the ICMPv6 message are carried in-line.
+            IpPayload::HopByHopIcmpv6(hbh_repr, icmpv6_repr) => {
+                let ext_hdr = crate::wire::Ipv6ExtHeaderRepr {
+                    next_header: IpProtocol::Icmpv6,
+                    length: 0,
+                    data: &[],
+                };
+                let hbh_start = ext_hdr.header_len();
+                let hbh_end = hbh_start + hbh_repr.buffer_len();
+                ext_hdr.emit(&mut crate::wire::Ipv6ExtHeader::new_unchecked(
+                    &mut buffer[..hbh_start],
+                ));
+                hbh_repr.emit(&mut crate::wire::Ipv6HopByHopHeader::new_unchecked(
+                    &mut buffer[hbh_start..hbh_end],
+                ));
+                icmpv6_repr.emit(
+                    &packet.header.src_addr,
+                    &packet.header.dst_addr,
+                    &mut Icmpv6Packet::new_unchecked(
+                        &mut buffer[hbh_end..packet.header.payload_len],
+                    ),
+                    checksum_caps,
+                );
+            }
 
             #[allow(unreachable_patterns)]
             _ => unreachable!(),
